@@ -385,6 +385,8 @@ class ExprMixin:
                 return d
             if o.items is not None:
                 return self.native_method(o.items, name, o)
+            if name in ("__repr__", "__str__", "__eq__", "__init__"):
+                return self.native_method(o, name, o)
             self.raise_builtin("AttributeError", "'%s' object has no attribute '%s'" % (o.cls.name, name))
         if isinstance(o, ClassV):
             v, owner = o.lookup(name)
